@@ -15,6 +15,7 @@ import Rare.Proofs.C15Rename
 import Rare.Proofs.C15StatOpen
 import Rare.Proofs.C15Replace
 import Rare.Proofs.C15CatchUp
+import Rare.Proofs.C15PollFull
 import Rare.Model.C15Wiring
 import Rare.Model.C15Switch
 import Rare.Gen.C15
@@ -1428,6 +1429,52 @@ example : ∃ s : NSt Nat, NReachO (srcN true) (ninit (some [1]) false) s ∧ s.
 example : ∃ s : NSt Nat, NReach (srcN false) (ninit (some [8, 9]) true) s ∧ s.removes = 0 ∧
     s.fs.content 0 = [8, 9, 5] ∧ s.delivered = [] :=
   ⟨_, .step (.refl (s0 := ninit (some [(8 : Nat), 9]) true)) (.append _ 0 [5] rfl (by decide)), rfl, rfl, rfl⟩
+
+/-! ## the polling reader under the full writer (rotation by rename, atomic replace) -/
+
+/-- **poll_full_writer_same_reach.**  poller.go never sees events, it only reads its descriptor, `Stat`s and
+    `Open`s the path.  With "followed file renamed away" and "a file with content `bs` renamed ONTO the path"
+    (one system call each) as additional writer steps (`PStepO`) the polling system reaches EXACTLY the states
+    it reaches with {append, remove, create}: a rename away is a removal, an atomic replace leaves the file
+    system as `remove; create; append bs` does (`FS.replace_eq_remove_create_append`) and no reader step can run in between to tell
+    the difference.  So every theorem about `PReach` above and below is a theorem about every kind of rotation. -/
+theorem poll_full_writer_same_reach (cfg : PCfg) (p0 s : PSt β) : PReachO cfg p0 s ↔ PReach cfg p0 s :=
+  preachO_iff
+
+/-- **poll_any_rotation_exactly_once.**  poll -F, every history of the full writer (append, remove, create,
+    rename away, atomic replace), every interleaving with the poller: the stream is one segment per handle, in
+    order; as long as every re-open happened under the proviso of the property (`skips = 0`) every file opened
+    after the start was read from its beginning; every handle delivered a range of its own file. -/
+theorem poll_any_rotation_exactly_once (c0 : Option (List β)) (tail : Bool) {s : PSt β}
+    (hr : PReachO (srcP true) (pinit c0 tail) s) (hsk : s.skips = 0) :
+    s.delivered = segments s.fs.content (s.hist ++ s.f.toList) ∧
+    (∀ h ∈ s.hist ++ s.f.toList, h.start = 0 ∨ (h.ino = 0 ∧ h.start = start0 c0 tail)) ∧
+    (∀ h ∈ s.hist ++ s.f.toList, h.start ≤ h.pos ∧ (h.pos ≤ (s.fs.content h.ino).length ∨ h.pos = h.start)) := by
+  have hr' := (poll_full_writer_same_reach _ _ _).mp hr
+  exact ⟨(delivered_is_segments_poll c0 tail true hr').1, (reopen_reads_new_from_start_poll c0 tail hr' hsk).1,
+    (delivered_is_segments_poll c0 tail true hr').2⟩
+
+/-- **poll_plain_full_writer_blocks**: plain poll -f and the full writer – the stream ends only after a
+    removal / rename away / replace of the file (`removes` counts all three), never while the first file is in place. -/
+theorem poll_plain_full_writer_blocks (c0 : List β) (tail : Bool) {s : PSt β}
+    (hr : PReachO (srcP false) (pinit (some c0) tail) s) (hrm : s.removes = 0) : s.rd ≠ .ended := fun he =>
+  have h := (blocks_while_exists_poll c0 tail false ((poll_full_writer_same_reach _ _ _).mp hr) he).2
+  by omega
+
+/-- Non-vacuity with a replace step: `[1,2,3]` delivered, `[7,8]` renamed onto the path (shorter than the
+    offset: inside the proviso), two empty polls, `Stat` sees size 2 ≠ 3, re-open at 0: the stream is
+    `[1,2,3,7,8]`, no skip. -/
+example : ∃ s : PSt Nat, PReachO ⟨2, true⟩ (pinit (some [1, 2, 3]) false) s ∧ s.delivered = [1, 2, 3, 7, 8] ∧
+    s.skips = 0 ∧ s.removes = 1 ∧ s.f = some ⟨1, 0, 2⟩ ∧ s.hist = [⟨0, 0, 3⟩] := by
+  have hr : PReachO ⟨2, true⟩ (pinit (some [(1 : Nat), 2, 3]) false) _ :=
+    .step (.step (.step (.step (.step (.step (.step (.step (.refl (s0 := pinit (some [(1 : Nat), 2, 3]) false))
+    (.base (.readSome _ ⟨0, 0, 0⟩ 0 3 rfl (by decide) rfl (by decide) (by decide))))
+    (.replace _ 0 [7, 8] rfl))
+    (.base (.readEmpty _ ⟨0, 0, 3⟩ 0 rfl (by decide) rfl rfl))) (.base (.readEmpty _ ⟨0, 0, 3⟩ 1 rfl (by decide) rfl rfl)))
+    (.base (.loopDone _ ⟨0, 0, 3⟩ rfl rfl)))
+    (.base (.statDiff _ 1 rfl rfl rfl (by decide)))) (.base (.reopen _ 2 rfl)))
+    (.base (.readSome _ ⟨1, 0, 0⟩ 0 2 rfl (by decide) rfl (by decide) (by decide)))
+  exact ⟨_, hr, rfl, rfl, rfl, rfl, rfl⟩
 
 /-! ## in-place truncation (copytruncate rotation) – outside the property, behaviour recorded -/
 
